@@ -599,6 +599,29 @@ class Summaries(object):
                         self._map_callee(W, r, {0: recv} if recv is not None else {}, f, node, call)
 
     # ------------------------------------------------------------------ queries
+    def node_writes(self, f, node):
+        """visible and invisible writes contributed by one CFG node (own and through callees)."""
+        W = {}
+        for ev in node_events(node):
+            k = ev["kind"]
+            a = ev["ast"]
+            if k in ("store_attr", "aug_attr", "del_attr"):
+                self._attr_write(a, ev, f, node, W, k)
+            elif k in ("store_sub", "aug_sub", "del_sub"):
+                self._sub_write(a, ev, f, node, W, k)
+            elif k == "call":
+                self._call(a, f, node, W)
+            elif k == "load_prop":
+                for gt in self.k.getter_targets(a, f):
+                    self._map_callee(W, gt, {0: a.value}, f, node, a)
+            elif k == "contains":
+                self._dunder(ev["container"], "__contains__", [ev["item"]], f, node, W)
+            elif k == "eq":
+                self._dunder(ev["left"], "__eq__", [ev["right"]], f, node, W)
+            elif k == "iter":
+                self._dunder(a, "__iter__", [], f, node, W)
+        return list(W.values())
+
     def writes(self, f):
         return list(self.W.get(f.qualname, {}).values())
 
